@@ -57,7 +57,21 @@ var (
 )
 
 // GenDoc draws a document with at most maxNodes nodes (counting attributes).
+// TightValues: a small alphabet whose members concatenate into each other
+// ("ab"+"" = "a"+"b"), used for whole documents now and then so that keys
+// built by concatenation or lossy hashing collide.
+var TightValues = []string{"", "a", "b", "ab", "ba", "a", "b", "1", "12", "2"}
+
 func GenDoc(r *Rng, maxNodes int) DocSpec {
+	if r.Chance(1, 3) {
+		saved := Values
+		Values = TightValues
+		defer func() { Values = saved }()
+	}
+	return genDoc(r, maxNodes)
+}
+
+func genDoc(r *Rng, maxNodes int) DocSpec {
 	if maxNodes < 3 {
 		maxNodes = 3
 	}
